@@ -15,17 +15,17 @@ import (
 
 // key usages (RFC 4120 7.5.1)
 const (
-	KUPAEncTS           = 1
-	KUTicket            = 2
-	KUASRepEncPart      = 3
-	KUTGSReqAuthCksum   = 6
-	KUTGSReqAuth        = 7
-	KUTGSRepEncSession  = 8
-	KUTGSRepEncSubkey   = 9
-	KUAPReqAuthCksum    = 10
-	KUAPReqAuth         = 11
-	KUAPRepEncPart      = 12
-	KUKrbPrivEncPart    = 13
+	KUPAEncTS          = 1
+	KUTicket           = 2
+	KUASRepEncPart     = 3
+	KUTGSReqAuthCksum  = 6
+	KUTGSReqAuth       = 7
+	KUTGSRepEncSession = 8
+	KUTGSRepEncSubkey  = 9
+	KUAPReqAuthCksum   = 10
+	KUAPReqAuth        = 11
+	KUAPRepEncPart     = 12
+	KUKrbPrivEncPart   = 13
 )
 
 // message types / application tags
@@ -696,11 +696,11 @@ func decPAs(n *der.Node) ([]PAData, error) {
 
 // PA-DATA types
 const (
-	PATGSReq     = 1
-	PAEncTS      = 2
-	PAPWSalt     = 3
-	PAETypeInfo  = 11
-	PAETypeInfo2 = 19
+	PATGSReq      = 1
+	PAEncTS       = 2
+	PAPWSalt      = 3
+	PAETypeInfo   = 11
+	PAETypeInfo2  = 19
 	PAReqEncPARep = 149
 )
 
